@@ -57,6 +57,9 @@ type expect struct {
 	anyFail   bool
 	label     string
 	desc      string
+	// deferred: the prediction needs something only the block itself reveals (the committee of a request
+	// created earlier in the same block); it is computed from the model after the block, in tx order
+	deferred func() expect
 }
 
 type hist struct {
@@ -246,6 +249,10 @@ func (r *mRequest) isChosen(v int) bool {
 
 // predictReport applies the sequential model to one report message.
 func (h *hist) predictReport(rid uint64, v int, raws []oracletypes.RawReport) expect {
+	return h.predictReportAt(rid, v, raws, h.w.Height+1)
+}
+
+func (h *hist) predictReportAt(rid uint64, v int, raws []oracletypes.RawReport, height int64) expect {
 	for _, rr := range raws {
 		if len(rr.Data) > h.maxRep {
 			return failExp("rep-too-large", oracletypes.ErrTooLargeRawReportData)
@@ -279,7 +286,7 @@ func (h *hist) predictReport(rid uint64, v int, raws []oracletypes.RawReport) ex
 		}
 	}
 	// accepted: update model
-	r.reports = append(r.reports, mReport{val: v, height: h.w.Height + 1, raws: raws})
+	r.reports = append(r.reports, mReport{val: v, height: height, raws: raws})
 	if !r.resolved {
 		r.inTime++
 		if uint64(r.inTime) == r.min {
@@ -362,6 +369,27 @@ func (h *hist) genReport(r *mRequest, v int, hostile int) {
 	}
 }
 
+// genSameBlockReport emits a report for a request created earlier in the SAME block (a reporter that predicts
+// the request id). Whether the validator is in the committee is only known once the block ran, so the
+// prediction is deferred; such reports are the last txs of their block, which keeps the model's pending-resolve
+// order equal to the tx order.
+func (h *hist) genSameBlockReport(r *mRequest, v int) {
+	w := h.w
+	raws := h.rawsFor(r)
+	val := w.Vals[v]
+	msg := oracletypes.NewMsgReportData(oracletypes.RequestID(r.id), raws, val.Val)
+	height := w.Height + 1
+	e := expect{label: "rep-same-block", deferred: func() expect { return h.predictReportAt(r.id, v, raws, height) }}
+	desc := fmt.Sprintf("report req=%d val=%d n=%d in the request's own block", r.id, v, len(raws))
+	if h.rng.Chance(2, 3) {
+		h.add(w.SignTx(val, msg), e, desc)
+	} else {
+		rp := h.reporters[v]
+		exec := authz.NewMsgExec(rp.Addr, []sdk.Msg{msg})
+		h.add(w.SignTx(rp, &exec), e, desc+" via-authz")
+	}
+}
+
 func (h *hist) undoLastReport(rid uint64, v int) {
 	r := h.reqs[rid-1]
 	n := len(r.reports)
@@ -429,8 +457,8 @@ func (h *hist) runBlock(dt time.Duration) bool {
 		return false
 	}
 	// 1. tx codes
-	for i, tr := range resp.TxResults {
-		e := exps[i]
+	check := func(i int, e expect) bool {
+		tr := resp.TxResults[i]
 		h.run.Count("tx:"+e.label, 1)
 		good := false
 		switch {
@@ -444,6 +472,12 @@ func (h *hist) runBlock(dt time.Duration) bool {
 		if !good {
 			h.violate("tx-outcome:"+e.label, fmt.Sprintf("tx %q: expected %s (ok=%v %s/%d), chain returned %s/%d log=%q",
 				e.desc, e.label, e.ok, e.codespace, e.code, tr.Codespace, tr.Code, tr.Log))
+			return false
+		}
+		return true
+	}
+	for i := range resp.TxResults {
+		if exps[i].deferred == nil && !check(i, exps[i]) {
 			return false
 		}
 	}
@@ -481,8 +515,19 @@ func (h *hist) runBlock(dt time.Duration) bool {
 			}
 		}
 	}
-	// Reports predicted for requests created in this block used r.chosen == nil at prediction time;
-	// the generator never reports in the creation block, so nothing to fix up.
+	// 2b. reports sent in their request's own block: predicted now, from the model only, in tx order
+	for i := range resp.TxResults {
+		if exps[i].deferred == nil {
+			continue
+		}
+		e := exps[i].deferred()
+		e.desc = exps[i].desc
+		h.log("deferred %s -> expect %s", e.desc, e.label)
+		h.run.Count("same-block-report:"+e.label, 1)
+		if !check(i, e) {
+			return false
+		}
+	}
 
 	// 3. predicted end-block: resolves in pending order, then expiries in id order.
 	type res struct {
@@ -499,6 +544,9 @@ func (h *hist) runBlock(dt time.Duration) bool {
 		h.run.Count(fmt.Sprintf("resolve:%s", statusName(st)), 1)
 		if len(r.reports) > int(r.min) {
 			h.run.Count("resolve-with-more-than-min-reports-in-block", 1)
+		}
+		if r.height == w.Height {
+			h.run.Count("resolved-in-the-request's-own-block", 1)
 		}
 	}
 	h.pendingQ = nil
@@ -772,6 +820,19 @@ func runHistory(run *sim.Run, caseID int) {
 		for ; nReqTx > 0; nReqTx-- {
 			h.genRequest()
 		}
+		// reports racing their own request: sent in the block that creates it
+		if rng.Chance(1, 4) {
+			for _, r := range h.reqs {
+				if r.chosen != nil || r.expired || r.height != w.Height+1 {
+					continue
+				}
+				for _, v := range rng.Perm(len(w.Vals)) {
+					if rng.Chance(2, 3) {
+						h.genSameBlockReport(r, v)
+					}
+				}
+			}
+		}
 		// re-activation of inactive validators
 		for i, v := range w.Vals {
 			if !h.active[i] && rng.Chance(1, 3) {
@@ -818,7 +879,8 @@ func main() {
 	sim.ParallelCases(n, 16, func(i int) { runHistory(run, i) })
 	for _, c := range []string{"resolve:SUCCESS", "resolve:FAILURE", "resolve:EXPIRED", "tx:rep-ok-late", "tx:rep-duplicate",
 		"tx:rep-not-chosen", "tx:rep-after-expiry", "tx:rep-wrong-extid", "tx:rep-wrong-size", "resolve-with-more-than-min-reports-in-block",
-		"tx:rep-unauthorised-exec", "result-bytes-compared"} {
+		"tx:rep-unauthorised-exec", "result-bytes-compared", "same-block-report:rep-ok-intime", "same-block-report:rep-not-chosen",
+		"resolved-in-the-request's-own-block"} {
 		run.Require(c, 1)
 	}
 	run.Finish()
